@@ -624,7 +624,7 @@ Section Driver.
     else
       set_ce false ;;;
       d <- get ;;
-      (if negb send_only && N.ltb (N.shiftr (d_in0 d) 1) 6 then flush_rx else ret tt) ;;;
+      (if negb send_only && N.ltb (st_pipe d) 6 then flush_rx else ret tt) ;;;     (* (status >> 1) & 7 < 6  (fix C02) *)
       clear_status_flags true true true ;;;
       set_ce true ;;;
       update ;;;
